@@ -14,6 +14,14 @@ R36c EngineMessageBuilder.collect_tag_updates de-duplicates by tag name, convert
 R36d every tag update taken off the queue is stored in the report: no path from the dequeue to the next dequeue or to the
      return skips the keyed store (a filter between queue and report drops changes that carry no new timestamp, e.g. the
      end of a simulation).
+R36f one tag cannot cost the others their report: in collect_tag_updates no exception raised while a dequeued tag is converted
+     (as_readonly -> the tag's format function, to_model_tag) leaves the function - the tags drained so far live only in the local
+     report dict, so a conversion error that escapes drops them for good (and every later report fails the same way while the
+     offending value stays).
+R36e nothing changes a tag after the tick's last collection: in Engine.tick every call that can (transitively, resolved callees, depth 4) reach
+     a tag mutation (set_value / simulate_* / stop_simulation on a tag) is followed on every path to the end of the tick by
+     notify_tag_updates() - the write phase reaches set_error_state (System State, Method Status) when the hardware write fails; a
+     change made after the last collection waits in the listeners until the *next* tick and misses "the next report".
 Decides the structure that makes "changed => reported" hold for every program; thread interleaving
 between engine tick and the reporter is outside.
 """
@@ -180,6 +188,7 @@ def run(ctx) -> None:
     tick = eng.methods["tick"]
     ctx.analysed(tick)
     g = cfg_of(tick)
+    _r36e(ctx, prog, tick, g)
     p = g.path_to_exit_avoiding(None, lambda n: node_calls(n, "notify_tag_updates"))
     if p is None:
         ctx.ok("R36b", "Engine.tick must-call notify_tag_updates")
@@ -220,6 +229,38 @@ def run(ctx) -> None:
     else:
         ctx.fail("R36d", col, drain[0].ast, inst, "a tag update can be taken off the queue and dropped: the engine queued it because the "
                  "tag's reported state changed (value, simulated flag or simulated value), so the aggregator keeps a stale state", skip)
+    ctx.rule("R36f", "a conversion error of one tag does not abandon the drained tags")
+    inst = "collect_tag_updates: no exception from converting a dequeued tag leaves the function"
+
+    # (the CFG has no edge for an implicit exception that no handler of the function catches, so this is decided lexically:)
+    # every statement between the dequeue and the next dequeue that calls anything but the queue's own bookkeeping and logging lies
+    # in the body of a try of this function that has a catch-all handler
+    from ..cfg import handler_is_catch_all
+    from ..model import parent_map
+    pm = parent_map(col.node)
+    region = g.search(starts, lambda n: False, blocked=lambda n: any(n.id == d.id for d in drain), follow_exc=False, collect=True)
+    esc = None
+    for nid in sorted(region):
+        nd = g.nodes[nid]
+        if nd.ast is None or nd.kind == "except":
+            continue
+        cs = [c for c in nd.calls() if call_attr(c) not in ("task_done", "get_nowait", "get", "error", "warning", "info", "debug", "values")]
+        if not cs:
+            continue
+        cur, protected, prev = pm.get(id(nd.ast)), False, nd.ast
+        while cur is not None and cur is not col.node:
+            if isinstance(cur, ast.Try) and any(prev is x for x in cur.body) and any(handler_is_catch_all(h) for h in cur.handlers):
+                protected = True
+                break
+            prev, cur = cur, pm.get(id(cur))
+        if not protected and esc is None:
+            esc = [nd]
+    if esc is None:
+        ctx.ok("R36f", inst)
+    else:
+        ctx.fail("R36f", col, drain[0].ast, inst, "the conversion of a dequeued tag can raise out of collect_tag_updates: after `Simulate: Clock = "
+                 "12:00:00` the Clock tag's format function raises TypeError in as_readonly(), every report fails to build while the simulation "
+                 "lasts, and the tags that were drained with it (a changed FT01, Process Time) are never reported again", esc)
     p = g.search([(tests[0].id, "T")], lambda n: n.id == drain[0].id, blocked=lambda n: node_calls(n, "notify_all_tags"))
     if p is None:
         ctx.ok("R36c", "collect_tag_updates(snapshot=True) must-call notify_all_tags before draining")
@@ -242,3 +283,61 @@ def run(ctx) -> None:
             ctx.ok("R36c", "notify_all_tags puts every tag of _iter_all_tags()")
         else:
             ctx.fail("R36c", na, lp.ast, "notify_all_tags puts every tag of _iter_all_tags()", "an iteration can skip a tag", skip)
+
+
+MUTATORS = ("set_value", "set_value_and_unit", "simulate_value", "simulate_value_and_unit", "stop_simulation")
+
+
+def _mutates_tags(ctx, fn, depth, seen, chain=()):
+    """A call chain from fn to a tag mutation, or None."""
+    if id(fn.node) in seen or depth < 0:
+        return None
+    seen.add(id(fn.node))
+    for c in walk_no_nested(fn.node):
+        if not isinstance(c, ast.Call):
+            continue
+        if call_attr(c) in MUTATORS:
+            return list(chain) + [fn.short, norm(c)[:50]]
+    for c in walk_no_nested(fn.node):
+        if not isinstance(c, ast.Call):
+            continue
+        for callee in ctx.res.resolve_call(c, fn, cha=False):
+            if not callee.module.name.startswith("openpectus.engine."):
+                continue
+            r = _mutates_tags(ctx, callee, depth - 1, seen, chain + (fn.short,))
+            if r:
+                return r
+    return None
+
+
+def _r36e(ctx, prog, tick, g) -> None:
+    ctx.rule("R36e", "no tag changes after the tick's last collection of changes")
+    n_sites = 0
+    for n in g.nodes:
+        if n.ast is None:
+            continue
+        for c in n.calls():
+            if call_attr(c) == "notify_tag_updates":
+                continue
+            why = None
+            if call_attr(c) in MUTATORS:
+                why = [norm(c)[:50]]
+            else:
+                for callee in ctx.res.resolve_call(c, tick, cha=False):
+                    if callee.module.name.startswith("openpectus.engine."):
+                        why = _mutates_tags(ctx, callee, 4, set())
+                        if why:
+                            break
+            if not why:
+                continue
+            n_sites += 1
+            inst = f"Engine.tick: changes made by `{norm(c)[:50]}` are collected in the same tick"
+            p = g.path_to_exit_avoiding([n.id], lambda x: x.id != n.id and node_calls(x, "notify_tag_updates"), follow_exc=False)
+            if p is None:
+                ctx.ok("R36e", inst)
+            else:
+                ctx.fail("R36e", tick, c, inst, f"`{norm(c)[:50]}` can change tags ({' > '.join(why)}) and no notify_tag_updates() follows before the "
+                         "tick ends: a hardware write that fails sets System State Paused and Method Status Error in this tick, but the report "
+                         "taken after this tick contains neither - they appear one tick later", p)
+    if n_sites < 3:
+        raise AnchorError(f"R36e: only {n_sites} tag-changing calls found in Engine.tick (floor 3)")
